@@ -84,6 +84,11 @@ def run(ctx: RuleContext):
     from .c02 import check_defaults_applied
 
     ctx.reuse("C13.12", check_defaults_applied, ctx, roles_for(ctx.model), "C13.12")
+    # C13.13: "says whether the parameters or the return value failed / names a parameter that really violates": the parameter check and the
+    # per-parameter blame checkers are built from the final full signature (C02.3)
+    from .c02 import check_signatures_and_dataclass
+
+    ctx.reuse("C13.13", check_signatures_and_dataclass, ctx, roles_for(ctx.model))
 
 
 # ------------------------------------------------------------------------ C13.1
